@@ -220,7 +220,7 @@ def run(ctx):
     # positive instances: the timeouts that exist
     for fid, what in ((MGR + '::wait_for_response', 'oneshot::Receiver'), (TH + '::send_message', 'send_to_peer'), (MGR + '::dial_candidate', 'connect_peer'),
                       (TH + '::send_request', 'oneshot'), (ENG + '::query_node_for_key', 'oneshot')):
-        b = prog.async_body(fid)
+        b = prog.inl(fid)       # the wait may sit in a same-file helper of the entry point
         tos = b.calls(r'tokio::time::timeout$|time::timeout::timeout$')
         okt = False
         for t in tos:
